@@ -62,6 +62,7 @@ struct Machine {
 	MV model[NS];
 	int alloc_id[NS] = {};   // expected get_allocator().id (stateful allocators)
 	bool moved_from[NS] = {};
+	bool alloc_flex[NS] = {};
 	bool unknown[NS] = {};   // value unspecified after an injected fault (basic guarantee): re-read from the array
 	Ctx& ctx;
 	unsigned long long enabled = kValueOps;
@@ -104,6 +105,15 @@ struct Machine {
 		VP_CHECK(static_cast<long>(A.num_elements()) == m.n(), "value/num_elements", "slot " << i << " after " << after << ": num_elements()=" << A.num_elements() << " model " << m.n());
 		VP_CHECK(A.is_empty() == (A.size() == 0), "value/is_empty", "slot " << i << " after " << after);
 		if constexpr(Cfg::stateful) {
+			if((Cfg::flags & 2) != 0 && alloc_flex[i]) {
+				// assignments that build an internal temporary (initializer list, iterator pair, view / convertible array of other extents) move-assign it:
+				// with propagate_on_container_move_assignment the array ends with its own or with the temporary's default-constructed allocator; which one
+				// depends on the branch taken, and no trait covers these assignments: both are accepted, the storage must agree with the reported one
+				int const got = A.get_allocator().id;
+				VP_CHECK(got == alloc_id[i] || got == 0, "alloc/identity", "slot " << i << " after " << after << ": get_allocator().id=" << got << " expected " << alloc_id[i] << " or 0");
+				alloc_id[i] = got;
+			}
+			alloc_flex[i] = false;
 			if((Cfg::flags & 8) == 0) VP_CHECK(A.get_allocator().id == alloc_id[i], "alloc/identity", "slot " << i << " after " << after << ": get_allocator().id=" << A.get_allocator().id << " expected " << alloc_id[i]);
 		}
 		if(m.n() == 0) { return; }
@@ -244,9 +254,13 @@ struct Machine {
 					return;
 				}
 				if(M.model[a].ext != want.ext || noncontig) { M.nt = true; }
-				M.unknown[a] = true;
+				M.unknown[a] = true; M.alloc_flex[a] = true;
 				if(variant & 1U) { *M.slot[a] = v; } else { *M.slot[a] = std::as_const(v); }
 				M.unknown[a] = false;
+				if constexpr(is_owning<std::remove_const_t<V>>::value) {  // no view operation was applied: this was a plain copy assignment from the array
+					M.alloc_flex[a] = false;
+					if(Cfg::stateful && (Cfg::flags & 1) != 0) { M.alloc_id[a] = M.alloc_id[b]; }
+				}
 			} else {  // decay: the result is a plain array with the default allocator of the element pointer
 				if(noncontig) { M.nt = true; }
 				if constexpr(std::is_same_v<Alloc, std::allocator<T>>) {
@@ -341,8 +355,9 @@ struct Machine {
 
 	bool needs_no_storage(unsigned op, int a, int b) const {
 		switch(op) {
-			case O_COPY_ASSIGN: return model[a].ext == model[b].ext;
-			case O_MOVE_CTOR: case O_MOVE_ASSIGN: case O_SWAP: case O_WRITE: case O_SELF_ASSIGN: case O_CLEAR: case O_REEXTENT_SAME: case O_RESHAPE: return true;
+			case O_COPY_ASSIGN: return model[a].ext == model[b].ext && !(Cfg::stateful && (Cfg::flags & 1) != 0 && (Cfg::flags & 8) == 0 && alloc_id[a] != alloc_id[b]);  // (a propagating unequal allocator must reallocate)
+			case O_MOVE_ASSIGN: return !Cfg::stateful || (Cfg::flags & (2 | 8)) != 0 || alloc_id[a] == alloc_id[b];  // (unequal non-propagating allocators must move element-wise)
+			case O_MOVE_CTOR: case O_SWAP: case O_WRITE: case O_SELF_ASSIGN: case O_CLEAR: case O_REEXTENT_SAME: case O_RESHAPE: return true;
 			default: return false;
 		}
 	}
@@ -386,7 +401,7 @@ struct Machine {
 				print_ext(e);
 				MV m = make_model(e, in.op(r, 5), 3);
 				if(op == O_CTOR_ITERS) { with_rows(m, [&](auto& src) { slot[a] = make(alloc_id[a], src.begin(), src.end()); }); }
-				else { if(model[a].ext != m.ext) { nt = true; } unknown[a] = true; with_rows(m, [&](auto& src) { slot[a]->assign(src.begin(), src.end()); }); unknown[a] = false; }
+				else { if(model[a].ext != m.ext) { nt = true; } unknown[a] = true; alloc_flex[a] = true; with_rows(m, [&](auto& src) { slot[a]->assign(src.begin(), src.end()); }); unknown[a] = false; }
 				model[a] = m;
 				break;
 			}
@@ -403,7 +418,7 @@ struct Machine {
 				else {
 					auto other = realise<U>(model[b]);
 					if(op == O_CTOR_CONVERT) { slot[a] = make(alloc_id[a], other); }
-					else { if(model[a].ext != model[b].ext) { nt = true; } unknown[a] = true; *slot[a] = other; unknown[a] = false; }
+					else { if(model[a].ext != model[b].ext) { nt = true; } unknown[a] = true; alloc_flex[a] = true; *slot[a] = other; unknown[a] = false; }
 					model[a] = model[b];
 				}
 				break;
@@ -428,7 +443,12 @@ struct Machine {
 				long ops0 = obs().copies_and_moves() + obs().ctor_default + obs().ctor_value;
 				int id = alloc_id[b];
 				if(op == O_MOVE_CTOR) { slot[a] = std::make_unique<Arr>(std::move(*slot[b])); }
-				else if constexpr(Cfg::stateful) { id = 1 + static_cast<int>(x & 1U); ctx.desc << " alloc" << id; unknown[b] = true; slot[a] = std::make_unique<Arr>(std::move(*slot[b]), alloc_of(id)); unknown[b] = false; }
+				else if constexpr(Cfg::stateful) { id = 1 + static_cast<int>(x & 1U); ctx.desc << " alloc" << id;
+					if(id != alloc_id[b] && (Cfg::flags & 8) == 0 && !known_mode()) {
+						// recorded known finding (C10): the allocator-extended move constructor adopts the source buffer even when the supplied allocator is unequal
+						ctx.count("excluded_move_ctor_alloc_unequal"); ctx.desc << " (excluded)"; break;
+					}
+					unknown[b] = true; slot[a] = std::make_unique<Arr>(std::move(*slot[b]), alloc_of(id)); unknown[b] = false; }
 				else { break; }
 				long ops1 = obs().copies_and_moves() + obs().ctor_default + obs().ctor_value;
 				bool const may_steal = (op == O_MOVE_CTOR) || id == alloc_id[b] || (Cfg::flags & 8) != 0;
@@ -454,16 +474,12 @@ struct Machine {
 				VP_CHECK(slot[a]->data_elements() == before, "value/self_assign", "self-assignment reallocated");
 				break;
 			}
-			case O_ASSIGN_ILIST: unknown[a] = true; from_ilist(a, true, x); unknown[a] = false; break;
+			case O_ASSIGN_ILIST: unknown[a] = true; alloc_flex[a] = true; from_ilist(a, true, x); unknown[a] = false; break;
 			case O_ASSIGN_EMPTY: { *slot[a] = {}; set_empty(a); break; }
 			case O_MOVE_ASSIGN: {
 				ctx.desc << " <- " << b;
 				bool const equal_allocs = !Cfg::stateful || alloc_id[a] == alloc_id[b] || (Cfg::flags & 8) != 0;
 				bool const pocma = Cfg::stateful && (Cfg::flags & 2) != 0;
-				if(Cfg::stateful && !equal_allocs && !pocma && !known_mode()) {
-					// recorded known finding (C10): move assignment between unequal non-propagating allocators adopts the source buffer; excluded and counted
-					ctx.count("excluded_move_assign_unequal_allocators"); ctx.desc << " (excluded)"; break;
-				}
 				auto const* before = slot[b]->data_elements(); long nb = model[b].n();
 				long ops0 = obs().copies_and_moves() + obs().ctor_default + obs().ctor_value;
 				if(moved_from[a]) { nt = true; }
